@@ -23,7 +23,7 @@ KIND_GETTER = {"events": "events", "emg": "emg"}
 
 
 def same_content(I, kind, a, b):
-    fa, fb = B.fields(I, kind, a), B.fields(I, kind, b)
+    fa, fb = B.fields(I, kind, a, values=True), B.fields(I, kind, b, values=True)
     if [n for n, _ in fa] != [n for n, _ in fb]:
         return False
     return I.and_(*[B.eqv(I, x, y) for (_, x), (_, y) in zip(fa, fb)])
